@@ -1,5 +1,6 @@
 import Tickit.Model.Rect
 import Tickit.Model.VT
+import Tickit.Model.Utf8
 /-
   Byte-exact model of the drawing requests of /repo/src/termdriver-xterm.c (`print`, `goto_abs`, `move_rel`,
   `scrollrect`, `erasech`, `clear`) as reached through the `tickit_term_*` entry points of /repo/src/term.c,
@@ -352,6 +353,36 @@ def ScrollOK (rect : Rect) (downward rightward : Int) (vt vt' : VTState) : Prop 
   sameModes vt vt' ∧ vt'.grid = scrollGrid rect downward rightward vt ∧
   0 ≤ vt'.row ∧ vt'.row < vt.lines ∧ 0 ≤ vt'.col ∧ vt'.col < vt.cols
 
+/-- The library's own UTF-8 encoding (`tickit_utf8_put`, Model/Utf8.lean) of a text given as code points. -/
+def utf8 (cps : List Nat) : List UInt8 := cps.flatMap fun cp => (Utf8.putBytes cp).map UInt8.ofNat
+
+/-- A code point a text may contain: not a C0/C1 control or DEL, inside the Unicode range. -/
+def Printable (cp : Nat) : Prop := 0x20 ≤ cp ∧ ¬ (0x7f ≤ cp ∧ cp < 0xa0) ∧ cp < 0x110000
+instance (cp : Nat) : Decidable (Printable cp) := by unfold Printable; exact inferInstance
+
+/-- The cells one character occupies: nothing for a zero-width (combining) one, its glyph for a width-1 one,
+    glyph + continuation cell `0` for a double-width one. -/
+def cellsOf (cp : Nat) : List Nat :=
+  match VT.width cp with
+  | 0 => []
+  | 1 => [cp]
+  | _ => [cp, 0]
+
+/-- The cells a text occupies; its length is the sum of the widths. -/
+def textCells (cps : List Nat) : List Nat := cps.flatMap cellsOf
+
+/-- Grid after writing `cells` from the cursor with the current attributes. -/
+def cellsGrid (cells : List Nat) (vt : VTState) : Int → Int → Cell := fun l c =>
+  if l = vt.row ∧ vt.col ≤ c ∧ c < vt.col + cells.length then ⟨cells.getD (c - vt.col).toNat 32, vt.bg, vt.rv⟩
+  else vt.grid l c
+
+/-- Screen after writing `cells` (at least one, all fitting in the row) from a cursor with no wrap pending: the
+    cursor advances by their number, or stays on the last column with the wrap pending when they end at the edge. -/
+def placeCells (cells : List Nat) (vt : VTState) : VTState :=
+  { vt with grid := cellsGrid cells vt,
+            col := if vt.col + cells.length < vt.cols then vt.col + cells.length else vt.cols - 1,
+            pendingWrap := decide (vt.col + cells.length = vt.cols) }
+
 /-- Margins are the full screen. -/
 def marginsReset (vt : VTState) : Prop :=
   vt.top = 0 ∧ vt.bottom = vt.lines - 1 ∧ vt.left = 0 ∧ vt.right = vt.cols - 1
@@ -387,8 +418,9 @@ instance (caps : Caps) (termCols : Int) (rect : Rect) (downward : Int) :
 def InContract (fx : Fixes) (d : Drv) (vt : VT.VTState) : Request → Prop
   | .goto line col => (line = -1 ∨ (0 ≤ line ∧ line < vt.lines)) ∧ (col = -1 ∨ (0 ≤ col ∧ col < vt.cols))
   | .move dn rt => (0 ≤ vt.row + dn ∧ vt.row + dn < vt.lines) ∧ (0 ≤ vt.col + rt ∧ vt.col + rt < vt.cols)
-  | .print s n => vt.pendingWrap = false ∧ n = s.length ∧ s ≠ [] ∧ (∀ b ∈ s, 0x20 ≤ b ∧ b < 0x7f) ∧
-      vt.col + s.length ≤ vt.cols
+  | .print s n => vt.pendingWrap = false ∧ n = s.length ∧
+      ∃ cps : List Nat, s = Spec.utf8 cps ∧ (∀ cp ∈ cps, Spec.Printable cp) ∧
+        vt.col + (Spec.textCells cps).length ≤ vt.cols
   | .erasech n me => vt.pendingWrap = false ∧ 1 ≤ n ∧ vt.col + n ≤ vt.cols ∧
       (fx.eraseKeepsCount = false → d.pen.reverse = true → me = .no → n ≤ 64) ∧
       (d.pen.reverse = true → me = .no → vt.col + n = vt.cols → vt.col = 0)
@@ -399,9 +431,8 @@ def InContract (fx : Fixes) (d : Drv) (vt : VT.VTState) : Request → Prop
 def StepOK (fx : Fixes) (d : Drv) (vt vt' : VT.VTState) : Request → Prop
   | .goto line col => vt' = Spec.goto line col vt
   | .move dn rt => vt' = Spec.move dn rt vt
-  | .print s _ => vt' = { vt with grid := Spec.printGrid (s.map UInt8.toNat) vt,
-                                   col := if vt.col + s.length < vt.cols then vt.col + s.length else vt.cols - 1,
-                                   pendingWrap := decide (vt.col + s.length = vt.cols) }
+  | .print s _ => ∀ cps : List Nat, s = Spec.utf8 cps → (∀ cp ∈ cps, Spec.Printable cp) →
+      vt.col + (Spec.textCells cps).length ≤ vt.cols → vt' = Spec.placeCells (Spec.textCells cps) vt
   | .erasech n me => Spec.EraseOK n me vt vt'
   | .clear => vt' = { vt with grid := Spec.clearGrid vt }
   | .scroll r dn rt =>
